@@ -495,6 +495,35 @@ class Inliner:
                             changed = True
                             continue
                         self.failed_sites[key] = self.failed_sites.get(key, 0) + 1
+                # a statement helper called inside a simple statement whose other calls all enclose it (nothing is evaluated
+                # before it that could observe the difference): bind its result first, then inline that binding
+                if isinstance(st, (ast.Expr, ast.Assign, ast.Return, ast.AugAssign)):
+                    root = st.value
+                    hc = [n for n in ast.walk(root) if isinstance(n, ast.Call) and self.lookup(n, cur_cls)[0] is not None
+                          and not self.lookup(n, cur_cls)[0].is_expr and self.lookup(n, cur_cls)[0].node is not fn]
+                    if len(hc) == 1 and hc[0] is not root:
+                        target_call = hc[0]
+                        others = [n for n in ast.walk(root) if isinstance(n, ast.Call) and n is not target_call]
+                        encloses = lambda outer: any(x is target_call for x in ast.walk(outer))
+                        if all(encloses(o) for o in others):
+                            h, recv = self.lookup(target_call, cur_cls)
+                            tmp = ast.Name(id=f"_inl{next(_counter)}_ret", ctx=ast.Store())
+                            pre2 = []
+                            new = self.inline_stmt(h, target_call, recv, "assign", tmp, pre2)
+                            key = (h.cls, h.node.name)
+                            if new is not None:
+                                class Rep(ast.NodeTransformer):
+                                    def visit_Call(self, n):
+                                        if n is target_call:
+                                            return ast.copy_location(ast.Name(id=tmp.id, ctx=ast.Load()), n)
+                                        self.generic_visit(n)
+                                        return n
+                                st.value = Rep().visit(st.value)
+                                out += pre2 + new
+                                self.inlined_sites[key] = self.inlined_sites.get(key, 0) + 1
+                                changed = True
+                            else:
+                                self.failed_sites[key] = self.failed_sites.get(key, 0) + 1
                 # expression helpers anywhere in the statement's own expressions
                 inl = self
 
@@ -663,7 +692,7 @@ def normalise_module(tree: ast.Module):
 
 # ------------------------------------------------------------------------------------------- N5 local copy propagation
 PURE_CALLS = {"len", "any", "all", "isinstance", "range", "enumerate", "min", "max", "sum", "int", "abs", "tuple", "hasattr", "bool", "str", "float",
-              "np.dtype", "numpy.dtype", "zip", "sorted", "reversed", "type"}
+              "np.dtype", "numpy.dtype", "zip", "sorted", "reversed", "type", "slice"}
 
 
 def _pure_expr(e):
@@ -738,6 +767,70 @@ def _kills(st, paths, names, attrs):
     return False
 
 
+def _in_pure_consumer_only(e):
+    """container displays / comprehensions occur only as arguments of len/any/all/sum/min/max/next/sorted/tuple (consumed at
+    once: no object identity escapes), so evaluating the expression at each use is indistinguishable"""
+    consumers = {"len", "any", "all", "sum", "min", "max", "next", "sorted", "tuple"}
+
+    def ok(n, consumed):
+        if isinstance(n, (ast.List, ast.Dict, ast.Set, ast.ListComp, ast.DictComp, ast.SetComp, ast.GeneratorExp)) and not consumed:
+            return False
+        if isinstance(n, ast.Call) and ast.unparse(n.func) in consumers:
+            return all(ok(a, True) for a in n.args) and all(ok(k.value, False) for k in n.keywords)
+        if isinstance(n, (ast.List, ast.ListComp, ast.GeneratorExp, ast.SetComp, ast.Set)) and consumed:
+            return all(ok(c, False) for c in ast.iter_child_nodes(n))
+        return all(ok(c, False) for c in ast.iter_child_nodes(n))
+
+    return ok(e, False)
+
+
+class SSARename:
+    """x = f(x) at the top level of a function body (x a parameter or an earlier top-level local, never stored anywhere else):
+    later uses read a new single-assignment name, so that the value can be followed."""
+
+    def run(self, fn):
+        if any(isinstance(n, (ast.Lambda, ast.FunctionDef, ast.Global, ast.Nonlocal)) and n is not fn for n in ast.walk(fn)):
+            return False
+        params = {a.arg for a in fn.args.posonlyargs + fn.args.args + fn.args.kwonlyargs}
+        top = {}
+        for st in fn.body:
+            if isinstance(st, ast.Assign) and len(st.targets) == 1 and isinstance(st.targets[0], ast.Name):
+                top[st.targets[0].id] = top.get(st.targets[0].id, 0) + 1
+        total = {}
+        for n in ast.walk(fn):
+            if isinstance(n, ast.Name) and isinstance(n.ctx, (ast.Store, ast.Del)):
+                total[n.id] = total.get(n.id, 0) + 1
+            if isinstance(n, ast.ExceptHandler) and n.name:
+                total[n.name] = total.get(n.name, 0) + 1
+        cands = {x for x, k in top.items() if total.get(x) == k and (k > 1 or x in params) and x not in ("self", "cls")}
+        if not cands:
+            return False
+        version = {}
+        changed = False
+
+        class R(ast.NodeTransformer):
+            def visit_Name(self, n):
+                if isinstance(n.ctx, ast.Load) and n.id in version:
+                    return ast.copy_location(ast.Name(id=version[n.id], ctx=ast.Load()), n)
+                return n
+
+        for st in fn.body:
+            if isinstance(st, ast.Assign) and len(st.targets) == 1 and isinstance(st.targets[0], ast.Name) and st.targets[0].id in cands:
+                x = st.targets[0].id
+                st.value = R().visit(st.value)
+                first_local_def = x not in params and x not in version and not getattr(self, "_seen_" + x, False)
+                if first_local_def:
+                    setattr(self, "_seen_" + x, True)
+                    continue
+                new = f"{x}__{next(_counter)}"
+                version[x] = new
+                st.targets[0] = ast.copy_location(ast.Name(id=new, ctx=ast.Store()), st.targets[0])
+                changed = True
+            else:
+                R().visit(st)
+        return changed
+
+
 class CopyProp:
     def run(self, fn):
         stores = {}
@@ -762,8 +855,8 @@ class CopyProp:
             st = stmts[i]
             if isinstance(st, ast.Assign) and len(st.targets) == 1 and isinstance(st.targets[0], ast.Name) \
                     and stores.get(st.targets[0].id) == 1 and st.targets[0].id not in params and _pure_expr(st.value) \
-                    and (not isinstance(st.value, (ast.List, ast.Dict, ast.Set, ast.ListComp, ast.DictComp, ast.SetComp, ast.GeneratorExp))
-                         or self.loads.get(st.targets[0].id) == 1) \
+                    and (not any(isinstance(x, (ast.List, ast.Dict, ast.Set, ast.ListComp, ast.DictComp, ast.SetComp, ast.GeneratorExp)) for x in ast.walk(st.value))
+                         or self.loads.get(st.targets[0].id) == 1 or _in_pure_consumer_only(st.value)) \
                     and not (isinstance(st.value, ast.Constant) and st.value.value is None):
                 name = st.targets[0].id
                 paths, names = _paths_read(st.value)
@@ -956,6 +1049,20 @@ class Canon(ast.NodeTransformer):
             return ast.copy_location(ast.IfExp(test=copy.deepcopy(E), body=R().visit(node.orelse), orelse=node.body), node)
         return node
 
+    def visit_Subscript(self, node):
+        self.generic_visit(node)
+        # X[slice(a, b)]  ==>  X[a:b]
+        sl = node.slice
+        if isinstance(sl, ast.Call) and isinstance(sl.func, ast.Name) and sl.func.id == "slice" and not sl.keywords and 1 <= len(sl.args) <= 3:
+            a = list(sl.args)
+            none = lambda x: None if isinstance(x, ast.Constant) and x.value is None else x
+            if len(a) == 1:
+                lo, hi, stp = None, none(a[0]), None
+            else:
+                lo, hi, stp = none(a[0]), none(a[1]), none(a[2]) if len(a) == 3 else None
+            node.slice = ast.Slice(lower=lo, upper=hi, step=stp)
+        return node
+
     def visit_For(self, node):
         self.generic_visit(node)
         # for v in IT: if C: raise X     ==>   if any(C for v in IT): raise X
@@ -1125,6 +1232,7 @@ def normalise_functions(tree):
     n = 0
     for node in ast.walk(tree):
         if isinstance(node, ast.FunctionDef):
+            SSARename().run(node)
             for _ in range(4):
                 if not CopyProp().run(node):
                     break
